@@ -33,6 +33,11 @@ func storageTrapAll(inflowMass, storageInflow, storageOutflow, storageVolume dat
 	initialStoredMass float64,
 	trappedMass, outflowMass data.ND1Float64) (storedMass float64) {
 
+	if inflowMass.Len1() == 0 {
+		// nothing to trap in an empty run: the stored mass is carried unchanged
+		return initialStoredMass
+	}
+
 	trappedMass.CopyFrom(inflowMass)
 
 	idx := []int{0}
